@@ -59,11 +59,14 @@ type scase struct {
 	// Watch: the handler ties a helper goroutine to its context right before it returns (a subscription clean-up,
 	// `go func() { <-ctx.Done(); … }()`): a real gRPC server ends the handler's context when the handler returns, so the
 	// helper ends with the call whatever the caller does with its own context afterwards.
-	Watch bool   `json:"watch,omitempty"`
-	Async bool   `json:"async,omitempty"`
-	Amp   int    `json:"amp,omitempty"`
-	Reuse bool   `json:"reuse,omitempty"`
-	Pass  string `json:"pass,omitempty"`
+	Watch bool `json:"watch,omitempty"`
+	// Abandon: the client's cancel (op x) waits until the handler is INSIDE SendMsg with nobody receiving — the client has
+	// stopped reading — and the client makes no further call (wrapper only: over gRPC that send is buffered).
+	Abandon bool   `json:"abandon,omitempty"`
+	Async   bool   `json:"async,omitempty"`
+	Amp     int    `json:"amp,omitempty"`
+	Reuse   bool   `json:"reuse,omitempty"`
+	Pass    string `json:"pass,omitempty"`
 	// Via: the call is made with the typed client of a GENERATED trait wrapper (via.go: onoff | info | metadata) instead
 	// of a bare wrap.ServerToClient connection to TestApi — unary and server-streaming scripts only.
 	Via string `json:"via,omitempty"`
@@ -82,6 +85,9 @@ func (c scase) key() string {
 	}
 	if c.Watch {
 		k += " watch"
+	}
+	if c.Abandon {
+		k += " abandon"
 	}
 	return k
 }
